@@ -13,6 +13,7 @@ from trimesh.path.exchange.misc import dict_to_path
 
 from ..core import ASSUMPTIONS, REQUIRED_CLASSES, RULES, Violation, body, check, subcheck
 from ..gen import c14_drawings as gd
+from ..gen import c14_lattice as gl
 from ..gen import matrices as gm
 
 RULES["C14"] = (
@@ -27,6 +28,12 @@ RULES["C14"] = (
     "curves, shell->holes map, area = sum (-1)^depth (shoelace + signed circular segments), length = sum chords + r|phi|; "
     "polygons matched by bounds, area and centroid checked per curve; every Arc entity must discretise onto the circumcircle of its three points. Transforms: similarity / mirror 3x3 matrices, any subset of 9 derived values read before each "
     "of up to two transforms, compared with a cold path built from fresh entities on M.V. Round trips through dxf, svg, dict. "
+    "A second family draws NON-CONVEX rectilinear curves on an integer lattice (exact coordinates origin + 2^k * integer): a "
+    "coarse grid is partitioned into simply connected polyominoes (templates U/C/comb/spirals/clip-on-prong/trident, or random "
+    "snake-like growth), a region at depth d is the union of its cells moved inwards by d+1 units, children are sub-sets of the "
+    "parent's cells (same set = pocket following the channel, or pieces of a split): concave holes in concave shells whose "
+    "centroid lies outside the shell, and neighbours interleaved without nesting (inside the bounding box of / around the "
+    "centroid of another curve); areas and lengths are exact integers times 2^k. "
     "Non-trivial: >=2 curves with nesting, >=1 curve in >=2 entities, >=1 entity reversed."
 )
 ASSUMPTIONS["C14"] = [
@@ -273,6 +280,7 @@ def class_labels(D, stats=None, vs=None):
     out += [f"kind:{k}" for k in sorted(kinds)]
     if any(len(c.children) >= 2 for c in D.curves):
         out.append("siblings_in_one_parent")
+    out += list(D.extra_labels)
     if stats is not None:
         if stats["dups"]:
             out.append("dup_joints")
@@ -291,7 +299,7 @@ def class_labels(D, stats=None, vs=None):
 @body("C14.draw")
 def b_draw(case, ctx):
     with np.errstate(all="ignore"):
-        D = gd.Drawing(case["draw"])
+        D = gl.make_drawing(case["draw"])
         variants = [gd.canonical_variant()] + list(case["variants"])
         dfr = Deferred(ctx)
         al = "arcs" if D.has_arcs else "poly"
@@ -344,7 +352,7 @@ def do_reads(p, mask, order):
 @body("C14.transform")
 def b_transform(case, ctx):
     with np.errstate(all="ignore"):
-        D = gd.Drawing(case["draw"])
+        D = gl.make_drawing(case["draw"])
         vs = safe_variant(D, case["variant"])
         V, ents, stats = gd.build_variant(D, vs)
         p = gd.make_path(V, ents, vs["mode"])
@@ -498,7 +506,7 @@ def manual_from_dict(d):
 @body("C14.roundtrip")
 def b_roundtrip(case, ctx):
     with np.errstate(all="ignore"):
-        D = gd.Drawing(case["draw"])
+        D = gl.make_drawing(case["draw"])
         vs = safe_variant(D, case["variant"])
         fmt = case["fmt"]
         V, ents, stats = gd.build_variant(D, vs)
@@ -544,8 +552,14 @@ def b_roundtrip(case, ctx):
 
 
 @st.composite
-def draw_case(draw, arcs=True):
-    return {"draw": draw(gd.drawing_spec(arcs=arcs)), "variants": draw(st.lists(gd.variant_spec(), min_size=2, max_size=3))}
+def draw_case(draw, arcs=True, lattice=False):
+    spec = draw(gl.lattice_spec()) if lattice else draw(gd.drawing_spec(arcs=arcs))
+    return {"draw": spec, "variants": draw(st.lists(gd.variant_spec(), min_size=2, max_size=3))}
+
+
+def any_drawing(max_cells=3):
+    """polar family with arcs, polar family polygons only, non-convex lattice family"""
+    return st.one_of(gd.drawing_spec(arcs=True, max_cells=max_cells), gd.drawing_spec(arcs=False, max_cells=max_cells), gl.lattice_spec())
 
 
 @st.composite
@@ -557,7 +571,7 @@ def transform_case(draw):
         mask = draw(st.one_of(st.sampled_from([0, 0, 0, 0, 511, 1, 2, 3, 8, 12, 64, 128, 256]), st.integers(0, 511)))
         steps.append({"M": draw(gm.matrix2d(classes=classes)), "reads": mask})
     return {
-        "draw": draw(gd.drawing_spec(arcs=draw(st.booleans()), max_cells=3)),
+        "draw": draw(any_drawing()),
         "variant": draw(gd.variant_spec()),
         "steps": steps,
         "reads_after": draw(st.one_of(st.just(0), st.integers(0, 511))),
@@ -568,7 +582,7 @@ def transform_case(draw):
 @st.composite
 def roundtrip_case(draw, fmt):
     return {
-        "draw": draw(gd.drawing_spec(arcs=draw(st.booleans()), max_cells=3)),
+        "draw": draw(any_drawing()),
         "variant": draw(gd.variant_spec()),
         "fmt": fmt,
         "warm": draw(st.booleans()),
@@ -596,12 +610,17 @@ def s_rt_dict(ctx):
 
 @subcheck("C14", "draw", shards={"quick": 5, "thorough": 12})
 def s_draw(ctx):
-    ctx.given("C14.draw", draw_case(arcs=True), n={"quick": 800, "thorough": 16000})
+    ctx.given("C14.draw", draw_case(arcs=True), n={"quick": 700, "thorough": 16000})
+
+
+@subcheck("C14", "draw_lattice", shards={"quick": 3, "thorough": 8})
+def s_draw_lattice(ctx):
+    ctx.given("C14.draw", draw_case(lattice=True), n={"quick": 420, "thorough": 12000})
 
 
 @subcheck("C14", "draw_poly", shards={"quick": 3, "thorough": 6})
 def s_draw_poly(ctx):
-    ctx.given("C14.draw", draw_case(arcs=False), n={"quick": 480, "thorough": 8000})
+    ctx.given("C14.draw", draw_case(arcs=False), n={"quick": 330, "thorough": 8000})
 
 
 @subcheck("C14", "transform", shards={"quick": 4, "thorough": 12})
@@ -634,4 +653,11 @@ REQUIRED_CLASSES["C14"] = [
     "fmt:dict:arcs",
     "fmt:dxf:poly",
     "fmt:svg:poly",
+    "family:lattice",
+    "lattice:grown",
+    "concave_in_concave",
+    "hole_centroid_outside_shell",
+    "centroid_outside_own_curve",
+    "bbox_inside_not_nested",
+    "centroid_inside_not_nested",
 ]
